@@ -223,11 +223,23 @@ class Check(FormulaCheck):
             allv['number'].append(rnd.choice([rnd.randint(-10 ** 9, 10 ** 9), rnd.uniform(-1e6, 1e6)]))
             allv['text'].append(''.join(rnd.choice('abc 12.#é') for _ in range(rnd.randint(0, 6))))
         preds = ['ISNUMBER', 'ISTEXT', 'ISLOGICAL', 'ISBLANK', 'ISERROR']
+        cur = [None]
+        self.e.p.on('callCellValue', lambda c, s: s(cur[0]) if c.label.upper() == 'PQ9' else None)
+        self.e.p.on('callRangeValue', lambda a, b, s: s([cur[0]]) if a.label.upper() == 'PQ9' else None)
+        self.e.p.set_function('GIVEV', lambda *a: cur[0])
         for cls, vs in allv.items():
-            for v in vs:
+            for nv, v in enumerate(vs):
                 got = [self.ev(f + '(v_x)', v_x=v) for f in preds]
                 exp = [cls == 'number', cls == 'text', cls == 'logical', cls == 'blank', cls == 'error']
                 self.expect('C12/predicates-on-' + cls, got == exp and all(isinstance(g, bool) for g in got), value=v, got=dict(zip(preds, got)))
+                # the class of a value does not depend on the route by which it arrives: a cell, a custom function's result, an IF branch
+                cur[0] = v
+                for route in ('PQ9', 'GIVEV()', 'IF(TRUE,v_x,1)', '(v_x)', 'INDEX(PQ9:PQ10,1)') if (nv < 40 or nv % 25 == 0) else ():
+                    if route.startswith('INDEX') and cls == 'blank':
+                        continue
+                    gr = [self.ev('%s(%s)' % (f, route), v_x=v) for f in preds + ['ISNONTEXT']]
+                    self.expect('C12/predicates-on-%s:value-arrives-through-%s' % (cls, route.split('(')[0] or 'parentheses'), gr == exp + [cls != 'text'], value=v, route=route,
+                                got=dict(zip(preds + ['ISNONTEXT'], gr)))
                 g = self.ev('ISNONTEXT(v_x)', v_x=v)
                 self.expect('C12/ISNONTEXT', g is (cls != 'text'), value=v, got=g)
                 a, b, c = self.ev('ISERROR(v_x)', v_x=v), self.ev('ISERR(v_x)', v_x=v), self.ev('ISNA(v_x)', v_x=v)
